@@ -4417,6 +4417,22 @@ func (t *Terminal) Loop() error {
 	}
 
 	if t.hasPreviewer() {
+		// Make sure that the preview command and its temporary files do not
+		// outlive fzf. The asynchronous killPreview() may not be processed
+		// before the process exits.
+		var runningMutex sync.Mutex
+		var runningKill func()
+		var runningFiles []string
+		exiting := false
+		util.AtExit(func() {
+			runningMutex.Lock()
+			exiting = true
+			if runningKill != nil {
+				runningKill()
+			}
+			removeFiles(runningFiles)
+			runningMutex.Unlock()
+		})
 		go func() {
 			var version int64
 			stop := false
@@ -4462,7 +4478,17 @@ func (t *Terminal) Loop() error {
 					reader := bufio.NewReader(out)
 					eofChan := make(chan bool)
 					finishChan := make(chan bool, 1)
+					runningMutex.Lock()
+					if exiting {
+						runningMutex.Unlock()
+						removeFiles(tempFiles)
+						break
+					}
 					err := cmd.Start()
+					if err == nil {
+						runningKill, runningFiles = func() { util.KillCommand(cmd) }, tempFiles
+					}
+					runningMutex.Unlock()
 					if err == nil {
 						reapChan := make(chan bool)
 						lineChan := make(chan eachLine)
@@ -4565,6 +4591,9 @@ func (t *Terminal) Loop() error {
 						finishChan <- true // Tell Goroutine 3 to stop
 						<-reapChan         // Goroutine 2 and 3 finished
 						<-reapChan
+						runningMutex.Lock()
+						runningKill, runningFiles = nil, nil
+						runningMutex.Unlock()
 						removeFiles(tempFiles)
 					} else {
 						// Failed to start the command. Report the error immediately.
